@@ -264,7 +264,7 @@ def classify(v):
 
 
 def correspondence(ctx):
-    res = base.correspondence(ctx, tag='c11', n_quick=3200, n_thorough=150000, pred=is_c11_reason, gen=generate, script=IMPL)
+    res = base.correspondence(ctx, tag='c11', n_quick=2600, n_thorough=40000, pred=is_c11_reason, gen=generate, script=IMPL)
     cases, results, rejected = ctx.url_cases
     # non-trivial for C11: distinct inputs that are rejected, or that parse with user-info or an IPv6 host
     # (the accessors with a failure path do real work)
@@ -273,7 +273,7 @@ def correspondence(ctx):
         if len(x['obs']) > 2 and x['obs'][1] == '000001' and (x['obs'][9] not in ('', '110001') or x['obs'][10] not in ('', '110001')
                                                                or x['obs'][11].startswith('00005b')):
             nontriv.add((c['url'], c['enc']))
-    stats, jdis, jviol = run_join(common.rng('c11-join'), 2000 if not ctx.thorough else 100000, cases)
+    stats, jdis, jviol = run_join(common.rng('c11-join'), 1500 if not ctx.thorough else 30000, cases)
     res['disagreements'] += jdis
     res['impl_violations'] += jviol
     res['evaluations'] += stats['pairs']
